@@ -1241,3 +1241,85 @@ func c01FindPath(p *Prog, q PathQuery) []string {
 	}
 	return out
 }
+
+// ---- key functions of a shared ordered-insertion routine (C01.3, sibling agreement) ----
+
+// fieldProjection: fn is a function of exactly one parameter, without free variables, whose whole body is
+// `return p.f1.f2...fk` (k >= 1): one block, nothing but the field selections / loads of that chain and the return
+// of the value loaded last. Such a function has no effect and its result IS that field of its argument, so a call
+// of it with argument a stands for the term a.f1...fk. Anything else (a computation on the field, a test, a call, a
+// captured variable, a second result) is not a projection and the call stays a call.
+func fieldProjection(fn *ssa.Function) (path []*types.Var, ok bool) {
+	if fn == nil || len(fn.Blocks) != 1 || len(fn.FreeVars) != 0 || len(fn.Params) != 1 || fn.Signature.Results().Len() != 1 {
+		return nil, false
+	}
+	var cur ssa.Value = fn.Params[0]
+	for _, in := range fn.Blocks[0].Instrs {
+		switch x := in.(type) {
+		case *ssa.DebugRef:
+		case *ssa.FieldAddr:
+			if x.X != cur {
+				return nil, false
+			}
+			path = append(path, fieldOf(x.X.Type(), x.Field))
+			cur = x
+		case *ssa.Field:
+			if x.X != cur {
+				return nil, false
+			}
+			path = append(path, fieldOf(x.X.Type(), x.Field))
+			cur = x
+		case *ssa.UnOp:
+			if _, isFA := x.X.(*ssa.FieldAddr); x.Op != token.MUL || x.X != cur || !isFA {
+				return nil, false
+			}
+			cur = x
+		case *ssa.Return:
+			if _, isFA := cur.(*ssa.FieldAddr); isFA || len(path) == 0 || len(x.Results) != 1 || x.Results[0] != cur {
+				return nil, false
+			}
+			return path, true
+		default:
+			return nil, false
+		}
+	}
+	return nil, false
+}
+
+// projectionCall: c is a static call of a field projection; the fields selected from its only argument.
+func projectionCall(c *ssa.CallCommon) ([]*types.Var, bool) {
+	if c == nil || c.IsInvoke() || len(c.Args) != 1 {
+		return nil, false
+	}
+	return fieldProjection(c.StaticCallee())
+}
+
+// resolveProjections rewrites every call of a field projection inside t into the field term it stands for
+// (`key(x)` with `key = func(g *Gene) int64 { return g.InnovationNum }` becomes `x.InnovationNum`). The routine
+// that two helpers share and parameterise by such a key function then reads, per helper, like the routine written
+// out for that key.
+func resolveProjections(t *Term) *Term {
+	if t == nil {
+		return nil
+	}
+	if t.Op == "call" && len(t.Args) == 1 {
+		if c, isCall := t.V.(*ssa.Call); isCall {
+			if path, ok := projectionCall(&c.Call); ok {
+				cur := resolveProjections(t.Args[0])
+				for _, f := range path {
+					cur = &Term{Op: "field", Name: f.Name(), Obj: f, Args: []*Term{cur}}
+				}
+				return cur
+			}
+		}
+	}
+	if len(t.Args) == 0 {
+		return t
+	}
+	cp := *t
+	cp.Args = make([]*Term, len(t.Args))
+	for i, a := range t.Args {
+		cp.Args[i] = resolveProjections(a)
+	}
+	return &cp
+}
